@@ -166,7 +166,9 @@ def class_key(model, exp, hz):
     mixed_prod = any(M.is_copy(model, cnt, i) and {M.is_copy(model, cnt, r["p"]) for r in c["refs"]} == {True, False}
                      for i, c in enumerate(comps))
     return json.dumps([len({c["stage"] for c in comps}), ns, min(ncopy, 2), min(nagg, 1),
-                       any(f.endswith("var") for f in forms), spell, mixed_prod, M.overlap_kinds(model),
+                       any(f.endswith("var") for f in forms),
+                       any(sh["form"] == "gvar" for sh in model.get("shadowed", [])), spell, mixed_prod,
+                       M.overlap_kinds(model),
                        sorted({h["kind"] for h in hz})])
 
 
@@ -197,6 +199,10 @@ def judge(model, w, mode):
             w.count("docs_with_10_or_more_replicas")
         if any(c["rep"] and c["rep"]["form"] in ("gvar", "svar", "cvar") for c in model["comps"]):
             w.count("docs_replicas_via_variable")
+        for sh in model.get("shadowed", []):
+            w.count("replica_variables_shadowed_in_other_scopes")
+            if sh["form"] == "gvar":
+                w.count("global_replica_variables_redefined_in_other_stage_or_component")
     w.distinct(class_key(model, exp, hz))
     if not mism:
         w.count("docs_conforming")
@@ -240,7 +246,7 @@ def main():
     c = vlib.Check(
         PROP, "exploration",
         rule="distinct = structural class of the document: (#stages, replica-count buckets {1,2-9,>=10}, #replicated "
-             "components (capped 2), has expanding aggregator, replica count via variable, spellings used, "
+             "components (capped 2), has expanding aggregator, replica count via variable, a globally defined replica variable redefined in foreign scopes, spellings used, "
              "a copy consuming replicated+single producers, "
              "textual relations between names, hazard kinds)",
         assumptions=[
@@ -289,7 +295,9 @@ def main():
                        ("aggregator_expansions_checked", 150, 3000),
                        ("outside_nodes_checked", 500, 10000),
                        ("docs_with_10_or_more_replicas", 100, 2000),
-                       ("docs_replicas_via_variable", 200, 4000)]:
+                       ("docs_replicas_via_variable", 200, 4000),
+                       ("replica_variables_shadowed_in_other_scopes", 250, 6000),
+                       ("global_replica_variables_redefined_in_other_stage_or_component", 100, 2500)]:
         c.floor(name, int((t if thorough else q) * min(1.0, scale)))
     sys.exit(c.finish())
 
